@@ -269,7 +269,9 @@ def run(ctx):
     n = ctx.share(s['ds'])
     ncli = ctx.share(s['cli'])
     for i in range(n):
-        if i % 3 == 2:
+        if i % 6 == 5:
+            case = gen_planted.gen_slow(rng)
+        elif i % 3 == 2:
             case = gen_planted.gen_noisy(rng)
         else:
             case = gen_planted.gen(rng, two_bands=True)
